@@ -58,6 +58,42 @@ def isFU (p : Bytes) : Bool := match p with | a :: b :: _ => hdrIsFU (rd16 a b) 
 def rtKF (cfg : Cfg) (mtu : UInt16) (frames : List (List (Nat × Bytes))) : Bool :=
   cfg.addDONL && (rtPayloads cfg mtu frames).any (·.any isFU)
 
+/-- the exported sub-parser that decodes packets of the form of `desc`, used directly -/
+def subIndex : Packet → Nat
+  | .single .. => 0
+  | .ap .. => 1
+  | .fu .. => 2
+  | .paci .. => 3
+
+/-! ### c14.rt with the options set per call -/
+
+/-- one call of a history: the options in force during the call, the frame's units with their
+    start codes -/
+abbrev RtCall := Cfg × List (Nat × Bytes)
+
+/-- the payloads of a history at one MTU on a payloader whose DONL counter stands at `d` -/
+def rtPayloadsF (mtu d : UInt16) (calls : List RtCall) : List (List Bytes) :=
+  payloadHistF d (calls.map fun c => (c.1, mtu, some (C14.frameBytes c.2)))
+
+/-- the observation: every call's payloads, each parsed with the DONL setting of ITS call -/
+def rtObsF (mtu : UInt16) : UInt16 → List RtCall → List (Option (List C14.PktObs))
+  | _, [] => []
+  | d, (cfg, f) :: cs =>
+    let (o, d') := payload cfg mtu d (some (C14.frameBytes f))
+    some (o.map (pktObs cfg.addDONL)) :: rtObsF mtu d' cs
+
+/-- `rtWF` call by call: the MTU bound is that of the call's own options -/
+def rtWFF (mtu : UInt16) (calls : List RtCall) : Bool :=
+  calls.all fun c => decide ((if c.1.addDONL then 6 else 4) ≤ mtu.toNat) && C14.frameWF c.2
+
+/-- region of the known finding `c14_donl_fu`, call by call: some call is made with AddDONL and
+    fragments a unit.  (On a history with constant options this is `rtKF`.) -/
+def rtKFF (mtu : UInt16) : UInt16 → List RtCall → Bool
+  | _, [] => false
+  | d, (cfg, f) :: cs =>
+    let (o, d') := payload cfg mtu d (some (C14.frameBytes f))
+    (cfg.addDONL && o.any isFU) || rtKFF mtu d' cs
+
 /-! ### c08.h265 / c09.h265 -/
 
 def c08Obs (cfg : Cfg) (calls : List (UInt16 × Option Bytes)) : List PayObs :=
@@ -82,6 +118,10 @@ def subDecode (which : Nat) (donl : Bool) (p : Option Bytes) : Res Parsed :=
     | 1 => parseAgg donl p
     | 2 => parseFU donl p
     | _ => parsePACI p).map Pkt.view).coarse
+
+/-- c14.dec with the sub-parser of `desc`'s form as the receiver -/
+def decObsSub (donl : Bool) (desc : Packet) (fed : Bytes) : C14.DecObs :=
+  { res := subDecode (subIndex desc) donl (some fed), head := isPartitionHead fed }
 
 def depHist (donl : Bool) (ps : List (Option Bytes)) : List (C09.DepObs (Option Parsed)) :=
   ps.map (depObs donl)
